@@ -37,14 +37,21 @@ def main():
     src = f"/tmp/mut-{pid}/out"
     dst = f"{OUT}/seeded/{pid}-{n}"
     os.makedirs(dst, exist_ok=True)
-    shutil.copy(f"{src}/patch{n}.diff", f"{dst}/patch.diff")
     demo = None
-    for cand in (f"demo{n}_test.go", f"demo{n}/main.go", f"demo{n}.go"):
-        if os.path.exists(f"{src}/{cand}"):
-            demo = cand
-            shutil.copy(f"{src}/{cand}", f"{dst}/{os.path.basename(cand) if '/' not in cand else 'demo_main.go'}")
-    if os.path.exists(f"{src}/README.md"):
-        shutil.copy(f"{src}/README.md", f"{dst}/README.agent.md")
+    if os.path.exists(f"{src}/patch{n}.diff"):
+        shutil.copy(f"{src}/patch{n}.diff", f"{dst}/patch.diff")
+        for cand in (f"demo{n}_test.go", f"demo{n}/main.go", f"demo{n}.go"):
+            if os.path.exists(f"{src}/{cand}"):
+                demo = cand
+                shutil.copy(f"{src}/{cand}", f"{dst}/{os.path.basename(cand) if '/' not in cand else 'demo_main.go'}")
+        if os.path.exists(f"{src}/README.md"):
+            shutil.copy(f"{src}/README.md", f"{dst}/README.agent.md")
+    else:
+        # re-run of a seeded change already kept under seeded/<id>-<n>/ (the author's scratch tree is gone)
+        src = dst
+        for cand in (f"demo{n}_test.go",):
+            if os.path.exists(f"{dst}/{cand}"):
+                demo = cand
     meta = {"property": pid, "n": int(n), "patch": "patch.diff", "demo": demo, "ran": []}
 
     wt = "/tmp/seedtest-wt-" + os.path.basename(V)
@@ -83,7 +90,7 @@ def main():
             if mt:
                 tags = "-tags " + mt.group(1)
             target = f"{wt}/{d}/zz_seeded_demo_test.go"
-            shutil.copy(f"{src}/{demo}", target)
+            shutil.copy(f"{src}/{demo}", target)  # src == dst on a re-run
             names = re.findall(r"^func (Test\w+)", text, re.M)
             runarg = "-run '^(" + "|".join(names) + ")$'" if names else ""
             cmd = f"go test -vet=off -count=1 {tags} {runarg} ./{d}/"
